@@ -149,6 +149,7 @@ def call_method(ex, st, recv, name, pos, named, stars, sargs, node, ov):
             return call_value(ex, st, st.read(name, r.z), pos, named, stars, sargs, node)
         k = None
         if r.cls is not None:
+            k = C.CONTRACTS.get(f'{r.cls}.{name}') if C_class(r.cls) is None else None      # pseudo classes (Queue, Task, ...)
             real = C_class(r.cls)
             if real is not None: k = resolve_method(real, name)
         if k is None: k = C.CONTRACTS.get(f'*.{name}')
@@ -306,13 +307,13 @@ def apply_bound(ex, st, k, args, site):
             args[p.name] = _typed(args[p.name], p.kind, st)
     outs = []
     post = st.copy()
-    if k.traced is not None: post.emit(k.traced(args, post))
+    if k.traced is not None: ex.emit(post, k.traced(args, post))
     havoc(post, k)
     result = k.result.fresh('ret') if k.result is not None else P_NONE
     cl = k.clauses(args, st, post, result)
     for label, f in cl.requires:
         ex.oblige(f'{site}/pre:{label}', st, f, kind='pre')
-    for r in cl.emits: post.emit(r)
+    for r in cl.emits: ex.emit(post, r)
     if cl.result_pv is not None: result = cl.result_pv
     for label, f in cl.ensures: post.assume(f)
     never = any(z3.is_false(z3.simplify(f)) for _, f in cl.ensures if is_expr(f))
@@ -838,3 +839,12 @@ def _list_extend(ex, st, recv, pos, named, node):
     v = pos[0]
     if isinstance(v, PTuple): return [(st, PTuple(recv.items + v.items, True), P_NONE)]
     raise Unsupported('list.extend with a symbolic-length sequence')
+
+
+@builtin(reversed)
+def _reversed(ex, st, pos, named, node):
+    v, = pos
+    if isinstance(v, PTuple): return [(st, PTuple(list(reversed(v.items)), True))]
+    if isinstance(v, PConst) and isinstance(v.obj, (tuple, list)): return [(st, PConst(tuple(reversed(v.obj))))]
+    arr, n = seq_of(v, st); j = fresh('j', IntSort())
+    return [(st, PSeq(z3.Lambda([j], arr[n - 1 - j]), n, getattr(v, 'elem', 'val'), True))]
